@@ -543,7 +543,7 @@ theorem release_some {s s' : St} {m : Side} {t : Tid} {p : Pc} (h : s.release m 
   · contradiction
 
 /-- closes the side conditions of the frame lemmas: facts about the classification of concrete pcs -/
-macro "pcs" hpc:ident : tactic =>
+macro "trg_pcs" hpc:ident : tactic =>
   `(tactic| (intros; simp_all [$hpc:ident, Pc.holds, Pc.notifying, Pc.notified, Pc.sleeping, Pc.sawFalse, Pc.needsTimed, Ctx.after]))
 
 theorem invL_step (s : St) (t : Tid) (e : Ev) (s' : St) (h : InvL s) (hs : step s t e = some s') : InvL s' := by
@@ -551,84 +551,84 @@ theorem invL_step (s : St) (t : Tid) (e : Ev) (s' : St) (h : InvL s) (hs : step 
   split at hs
   case h_1 | h_2 | h_3 | h_4 | h_5 | h_6 | h_7 | h_8 | h_9 =>
     rename_i hpc; injection hs with hs; subst hs
-    exact invL_pc h rfl rfl rfl rfl (by pcs hpc) (by pcs hpc) (by pcs hpc) (by pcs hpc) (by pcs hpc) (by pcs hpc)
+    exact invL_pc h rfl rfl rfl rfl (by trg_pcs hpc) (by trg_pcs hpc) (by trg_pcs hpc) (by trg_pcs hpc) (by trg_pcs hpc) (by trg_pcs hpc)
   case h_10 =>
     rename_i v hpc; split at hs
     · injection hs with hs; subst hs
       cases v <;>
-        exact invL_pc h rfl rfl rfl rfl (by pcs hpc) (by pcs hpc) (by pcs hpc) (by pcs hpc) (by pcs hpc) (by pcs hpc)
+        exact invL_pc h rfl rfl rfl rfl (by trg_pcs hpc) (by trg_pcs hpc) (by trg_pcs hpc) (by trg_pcs hpc) (by trg_pcs hpc) (by trg_pcs hpc)
     · contradiction
   case h_11 =>
     rename_i hpc; obtain ⟨hm, rfl⟩ := acquire_some hs
-    exact invL_acquire h hm rfl rfl rfl rfl (by pcs hpc) (by pcs hpc) (by pcs hpc) (by pcs hpc) (by pcs hpc) (by pcs hpc)
+    exact invL_acquire h hm rfl rfl rfl rfl (by trg_pcs hpc) (by trg_pcs hpc) (by trg_pcs hpc) (by trg_pcs hpc) (by trg_pcs hpc) (by trg_pcs hpc)
   case h_12 =>
     rename_i hpc; injection hs with hs; subst hs
-    have hm := (h.holder .trig t).1 (by pcs hpc)
-    exact invL_storeFalse h hm rfl rfl rfl rfl (by pcs hpc) (by pcs hpc) (by pcs hpc) (by pcs hpc) (by pcs hpc)
+    have hm := (h.holder .trig t).1 (by trg_pcs hpc)
+    exact invL_storeFalse h hm rfl rfl rfl rfl (by trg_pcs hpc) (by trg_pcs hpc) (by trg_pcs hpc) (by trg_pcs hpc) (by trg_pcs hpc)
   case h_13 =>
     rename_i hpc; obtain ⟨hm, rfl⟩ := release_some hs
-    exact invL_release h hm rfl rfl rfl rfl (by pcs hpc) (by pcs hpc) (by pcs hpc) (by pcs hpc)
+    exact invL_release h hm rfl rfl rfl rfl (by trg_pcs hpc) (by trg_pcs hpc) (by trg_pcs hpc) (by trg_pcs hpc)
   case h_14 =>
     rename_i hpc; obtain ⟨hm, rfl⟩ := acquire_some hs
-    exact invL_acquire h hm rfl rfl rfl rfl (by pcs hpc) (by pcs hpc) (by pcs hpc) (by pcs hpc) (by pcs hpc) (by pcs hpc)
+    exact invL_acquire h hm rfl rfl rfl rfl (by trg_pcs hpc) (by trg_pcs hpc) (by trg_pcs hpc) (by trg_pcs hpc) (by trg_pcs hpc) (by trg_pcs hpc)
   case h_15 =>
     rename_i nt hpc; injection hs with hs; subst hs
-    have hm := (h.holder .act t).1 (by pcs hpc)
+    have hm := (h.holder .act t).1 (by trg_pcs hpc)
     cases nt <;>
-      exact invL_storeTrue h hm rfl rfl rfl rfl (by pcs hpc) (by pcs hpc) (by pcs hpc) (by pcs hpc) (by pcs hpc) (by pcs hpc)
+      exact invL_storeTrue h hm rfl rfl rfl rfl (by trg_pcs hpc) (by trg_pcs hpc) (by trg_pcs hpc) (by trg_pcs hpc) (by trg_pcs hpc) (by trg_pcs hpc)
   case h_16 =>
     rename_i st hpc; injection hs with hs; subst hs
-    have hm := (h.holder .act t).1 (by pcs hpc)
-    exact invL_cna h hm rfl rfl rfl rfl (by pcs hpc) (by pcs hpc) (by pcs hpc) (by pcs hpc) (by pcs hpc)
+    have hm := (h.holder .act t).1 (by trg_pcs hpc)
+    exact invL_cna h hm rfl rfl rfl rfl (by trg_pcs hpc) (by trg_pcs hpc) (by trg_pcs hpc) (by trg_pcs hpc) (by trg_pcs hpc)
   case h_17 =>
     rename_i hpc; obtain ⟨hm, rfl⟩ := release_some hs
-    exact invL_release h hm rfl rfl rfl rfl (by pcs hpc) (by pcs hpc) (by pcs hpc) (by pcs hpc)
+    exact invL_release h hm rfl rfl rfl rfl (by trg_pcs hpc) (by trg_pcs hpc) (by trg_pcs hpc) (by trg_pcs hpc)
   case h_18 | h_24 =>
     rename_i hpc; split at hs
     · injection hs with hs; subst hs
-      exact invL_pc h rfl rfl rfl rfl (by pcs hpc) (by pcs hpc) (by pcs hpc) (by pcs hpc) (by pcs hpc) (by pcs hpc)
+      exact invL_pc h rfl rfl rfl rfl (by trg_pcs hpc) (by trg_pcs hpc) (by trg_pcs hpc) (by trg_pcs hpc) (by trg_pcs hpc) (by trg_pcs hpc)
     · contradiction
   case h_19 =>
     rename_i x v hpc; split at hs
     · injection hs with hs; subst hs
       cases v <;> cases x <;>
-        exact invL_pc h rfl rfl rfl rfl (by pcs hpc) (by pcs hpc) (by pcs hpc) (by pcs hpc) (by pcs hpc) (by pcs hpc)
+        exact invL_pc h rfl rfl rfl rfl (by trg_pcs hpc) (by trg_pcs hpc) (by trg_pcs hpc) (by trg_pcs hpc) (by trg_pcs hpc) (by trg_pcs hpc)
     · contradiction
   case h_20 =>
     rename_i x hpc; obtain ⟨hm, rfl⟩ := acquire_some hs
-    exact invL_acquire h hm rfl rfl rfl rfl (by pcs hpc) (by pcs hpc) (by pcs hpc) (by pcs hpc) (by pcs hpc) (by pcs hpc)
+    exact invL_acquire h hm rfl rfl rfl rfl (by trg_pcs hpc) (by trg_pcs hpc) (by trg_pcs hpc) (by trg_pcs hpc) (by trg_pcs hpc) (by trg_pcs hpc)
   case h_21 =>
     rename_i x nt hpc; injection hs with hs; subst hs
-    have hm := (h.holder .trig t).1 (by pcs hpc)
+    have hm := (h.holder .trig t).1 (by trg_pcs hpc)
     cases nt <;>
-      exact invL_storeTrue h hm rfl rfl rfl rfl (by pcs hpc) (by pcs hpc) (by pcs hpc) (by pcs hpc) (by pcs hpc) (by pcs hpc)
+      exact invL_storeTrue h hm rfl rfl rfl rfl (by trg_pcs hpc) (by trg_pcs hpc) (by trg_pcs hpc) (by trg_pcs hpc) (by trg_pcs hpc) (by trg_pcs hpc)
   case h_22 =>
     rename_i x st hpc; injection hs with hs; subst hs
-    have hm := (h.holder .trig t).1 (by pcs hpc)
-    exact invL_cna h hm rfl rfl rfl rfl (by pcs hpc) (by pcs hpc) (by pcs hpc) (by pcs hpc) (by pcs hpc)
+    have hm := (h.holder .trig t).1 (by trg_pcs hpc)
+    exact invL_cna h hm rfl rfl rfl rfl (by trg_pcs hpc) (by trg_pcs hpc) (by trg_pcs hpc) (by trg_pcs hpc) (by trg_pcs hpc)
   case h_23 =>
     rename_i x hpc; obtain ⟨hm, rfl⟩ := release_some hs
     cases x <;>
-      exact invL_release h hm rfl rfl rfl rfl (by pcs hpc) (by pcs hpc) (by pcs hpc) (by pcs hpc)
+      exact invL_release h hm rfl rfl rfl rfl (by trg_pcs hpc) (by trg_pcs hpc) (by trg_pcs hpc) (by trg_pcs hpc)
   case h_25 =>
     rename_i k v hpc; split at hs
     · injection hs with hs; subst hs
       cases v <;>
-        exact invL_pc h rfl rfl rfl rfl (by pcs hpc) (by pcs hpc) (by pcs hpc) (by pcs hpc) (by pcs hpc) (by pcs hpc)
+        exact invL_pc h rfl rfl rfl rfl (by trg_pcs hpc) (by trg_pcs hpc) (by trg_pcs hpc) (by trg_pcs hpc) (by trg_pcs hpc) (by trg_pcs hpc)
     · contradiction
   case h_26 =>
     rename_i k m hpc; split at hs
     · rename_i hmk; subst hmk; obtain ⟨hm, rfl⟩ := acquire_some hs
-      exact invL_acquire h hm rfl rfl rfl rfl (by pcs hpc) (by intro m'; simp [Pc.holds, eq_comm]) (by pcs hpc)
-        (by pcs hpc) (by pcs hpc) (by pcs hpc)
+      exact invL_acquire h hm rfl rfl rfl rfl (by trg_pcs hpc) (by intro m'; simp [Pc.holds, eq_comm]) (by trg_pcs hpc)
+        (by trg_pcs hpc) (by trg_pcs hpc) (by trg_pcs hpc)
     · contradiction
   case h_27 =>
     rename_i k f a v hpc; split at hs
     · rename_i hg; obtain ⟨ha, hv⟩ := hg; subst ha; injection hs with hs; subst hs
       cases v
-      · refine invL_pc h rfl rfl rfl rfl (by pcs hpc) (by pcs hpc) (by pcs hpc) (by pcs hpc) ?_ (by pcs hpc)
+      · refine invL_pc h rfl rfl rfl rfl (by trg_pcs hpc) (by trg_pcs hpc) (by trg_pcs hpc) (by trg_pcs hpc) ?_ (by trg_pcs hpc)
         intro m hx; simp [Pc.sawFalse] at hx; subst hx; exact Or.inr hv.symm
-      · exact invL_pc h rfl rfl rfl rfl (by pcs hpc) (by pcs hpc) (by pcs hpc) (by pcs hpc) (by pcs hpc) (by pcs hpc)
+      · exact invL_pc h rfl rfl rfl rfl (by trg_pcs hpc) (by trg_pcs hpc) (by trg_pcs hpc) (by trg_pcs hpc) (by trg_pcs hpc) (by trg_pcs hpc)
     · contradiction
   case h_28 =>
     rename_i k m hpc; split at hs
@@ -642,15 +642,15 @@ theorem invL_step (s : St) (t : Tid) (e : Ev) (s' : St) (h : InvL s) (hs : step 
       · split at hs
         · contradiction
         · rename_i hnin; injection hs with hs; subst hs
-          refine invL_cwk h hpc hm rfl rfl ?_ rfl (by intro m'; simp [Pc.holds, eq_comm]) (by pcs hpc) (by pcs hpc) (by pcs hpc)
+          refine invL_cwk h hpc hm rfl rfl ?_ rfl (by intro m'; simp [Pc.holds, eq_comm]) (by trg_pcs hpc) (by trg_pcs hpc) (by trg_pcs hpc)
           simp [List.erase_of_not_mem hnin, updS_self]
       · split at hs
         · injection hs with hs; subst hs
-          exact invL_cwk h hpc hm rfl rfl rfl rfl (by intro m'; simp [Pc.holds, eq_comm]) (by pcs hpc) (by pcs hpc) (by pcs hpc)
+          exact invL_cwk h hpc hm rfl rfl rfl rfl (by intro m'; simp [Pc.holds, eq_comm]) (by trg_pcs hpc) (by trg_pcs hpc) (by trg_pcs hpc)
         · contradiction
       · split at hs
         · rename_i hg; injection hs with hs; subst hs
-          refine invL_cwk h hpc hm rfl rfl rfl rfl (by intro m'; simp [Pc.holds, eq_comm]) (by pcs hpc) ?_ ?_
+          refine invL_cwk h hpc hm rfl rfl rfl rfl (by intro m'; simp [Pc.holds, eq_comm]) (by trg_pcs hpc) ?_ ?_
           · intro m' hx; simp [Pc.sawFalse] at hx; exact ⟨hx.symm, hg.1⟩
           · intro k' hx; simp [Pc.needsTimed] at hx; subst hx; exact hg.2
         · contradiction
@@ -659,15 +659,15 @@ theorem invL_step (s : St) (t : Tid) (e : Ev) (s' : St) (h : InvL s) (hs : step 
     rename_i k a v hpc; split at hs
     · rename_i hg; obtain ⟨ha, hv⟩ := hg; subst ha; injection hs with hs; subst hs
       cases v
-      · refine invL_pc h rfl rfl rfl rfl (by pcs hpc) (by pcs hpc) (by pcs hpc) (by pcs hpc) ?_ ?_
+      · refine invL_pc h rfl rfl rfl rfl (by trg_pcs hpc) (by trg_pcs hpc) (by trg_pcs hpc) (by trg_pcs hpc) ?_ ?_
         · intro m hx; simp [Pc.sawFalse] at hx; subst hx; exact Or.inr hv.symm
         · intro k' hx; simp [Pc.needsTimed] at hx; subst hx; exact h.untimed t k (by simp [hpc, Pc.needsTimed])
-      · exact invL_pc h rfl rfl rfl rfl (by pcs hpc) (by pcs hpc) (by pcs hpc) (by pcs hpc) (by pcs hpc) (by pcs hpc)
+      · exact invL_pc h rfl rfl rfl rfl (by trg_pcs hpc) (by trg_pcs hpc) (by trg_pcs hpc) (by trg_pcs hpc) (by trg_pcs hpc) (by trg_pcs hpc)
     · contradiction
   case h_31 =>
     rename_i k r m hpc; split at hs
     · rename_i hmk; subst hmk; obtain ⟨hm, rfl⟩ := release_some hs
-      refine invL_release h hm rfl rfl rfl rfl ?_ (by pcs hpc) (by pcs hpc) ?_
+      refine invL_release h hm rfl rfl rfl rfl ?_ (by trg_pcs hpc) (by trg_pcs hpc) ?_
       · intro m' hne; simp [hpc, Pc.holds]; exact fun hx => hne hx.symm
       · intro k' hx; cases r <;> simp [Pc.needsTimed] at hx
         subst hx; exact h.untimed t k (by simp [hpc, Pc.needsTimed])
@@ -675,39 +675,39 @@ theorem invL_step (s : St) (t : Tid) (e : Ev) (s' : St) (h : InvL s) (hs : step 
   case h_32 | h_42 =>
     rename_i hpc; split at hs
     · injection hs with hs; subst hs
-      exact invL_pc h rfl rfl rfl rfl (by pcs hpc) (by pcs hpc) (by pcs hpc) (by pcs hpc) (by pcs hpc) (by pcs hpc)
+      exact invL_pc h rfl rfl rfl rfl (by trg_pcs hpc) (by trg_pcs hpc) (by trg_pcs hpc) (by trg_pcs hpc) (by trg_pcs hpc) (by trg_pcs hpc)
     · contradiction
   case h_33 | h_37 =>
     rename_i hpc; obtain ⟨hm, rfl⟩ := acquire_some hs
-    exact invL_acquire h hm rfl rfl rfl rfl (by pcs hpc) (by pcs hpc) (by pcs hpc) (by pcs hpc) (by pcs hpc) (by pcs hpc)
+    exact invL_acquire h hm rfl rfl rfl rfl (by trg_pcs hpc) (by trg_pcs hpc) (by trg_pcs hpc) (by trg_pcs hpc) (by trg_pcs hpc) (by trg_pcs hpc)
   case h_34 =>
     rename_i v hpc; split at hs
     · rename_i hv; injection hs with hs; subst hs
       cases v
-      · refine invL_pc h rfl rfl rfl rfl (by pcs hpc) (by pcs hpc) (by pcs hpc) (by pcs hpc) ?_ (by pcs hpc)
+      · refine invL_pc h rfl rfl rfl rfl (by trg_pcs hpc) (by trg_pcs hpc) (by trg_pcs hpc) (by trg_pcs hpc) ?_ (by trg_pcs hpc)
         intro m hx; simp [Pc.sawFalse] at hx; subst hx; exact Or.inr hv.symm
-      · exact invL_pc h rfl rfl rfl rfl (by pcs hpc) (by pcs hpc) (by pcs hpc) (by pcs hpc) (by pcs hpc) (by pcs hpc)
+      · exact invL_pc h rfl rfl rfl rfl (by trg_pcs hpc) (by trg_pcs hpc) (by trg_pcs hpc) (by trg_pcs hpc) (by trg_pcs hpc) (by trg_pcs hpc)
     · contradiction
   case h_35 =>
     rename_i o v hpc; split at hs
     · injection hs with hs; subst hs
       cases v <;>
-        exact invL_pc h rfl rfl rfl rfl (by pcs hpc) (by pcs hpc) (by pcs hpc) (by pcs hpc) (by pcs hpc) (by pcs hpc)
+        exact invL_pc h rfl rfl rfl rfl (by trg_pcs hpc) (by trg_pcs hpc) (by trg_pcs hpc) (by trg_pcs hpc) (by trg_pcs hpc) (by trg_pcs hpc)
     · contradiction
   case h_36 | h_39 =>
     rename_i hpc; obtain ⟨hm, rfl⟩ := release_some hs
-    exact invL_release h hm rfl rfl rfl rfl (by pcs hpc) (by pcs hpc) (by pcs hpc) (by pcs hpc)
+    exact invL_release h hm rfl rfl rfl rfl (by trg_pcs hpc) (by trg_pcs hpc) (by trg_pcs hpc) (by trg_pcs hpc)
   case h_38 =>
     rename_i hpc; injection hs with hs; subst hs
-    have hm := (h.holder .act t).1 (by pcs hpc)
-    exact invL_storeFalse h hm rfl rfl rfl rfl (by pcs hpc) (by pcs hpc) (by pcs hpc) (by pcs hpc) (by pcs hpc)
+    have hm := (h.holder .act t).1 (by trg_pcs hpc)
+    exact invL_storeFalse h hm rfl rfl rfl rfl (by trg_pcs hpc) (by trg_pcs hpc) (by trg_pcs hpc) (by trg_pcs hpc) (by trg_pcs hpc)
   case h_40 =>
     rename_i hpc; injection hs with hs; subst hs
-    exact invL_pc h rfl rfl rfl rfl (by pcs hpc) (by pcs hpc) (by pcs hpc) (by pcs hpc) (by pcs hpc) (by pcs hpc)
+    exact invL_pc h rfl rfl rfl rfl (by trg_pcs hpc) (by trg_pcs hpc) (by trg_pcs hpc) (by trg_pcs hpc) (by trg_pcs hpc) (by trg_pcs hpc)
   case h_41 =>
     rename_i a a' v hpc; split at hs
     · injection hs with hs; subst hs
-      exact invL_pc h rfl rfl rfl rfl (by pcs hpc) (by pcs hpc) (by pcs hpc) (by pcs hpc) (by pcs hpc) (by pcs hpc)
+      exact invL_pc h rfl rfl rfl rfl (by trg_pcs hpc) (by trg_pcs hpc) (by trg_pcs hpc) (by trg_pcs hpc) (by trg_pcs hpc) (by trg_pcs hpc)
     · contradiction
   case h_43 => contradiction
 
@@ -1011,114 +1011,114 @@ theorem resOk_of_flag {s : St} (h : InvG s) (t : Tid) (k : WKind) (hf : s.flag k
     obtain ⟨u, a, _, _, ha⟩ := h.actWf hf
     exact ⟨a, u, ha⟩
 
-macro "gcs" hpc:ident : tactic =>
+macro "trg_gcs" hpc:ident : tactic =>
   `(tactic| (intros; simp_all [$hpc:ident, Pc.pending, Ctx.after, WKind.side]))
 
 /-- pc-only move that leaves the observation alone -/
-macro "gpc" h:ident hpc:ident : tactic =>
-  `(tactic| exact invG_pc $h rfl rfl rfl rfl rfl (fun _ _ => rfl) rfl rfl (Or.inl rfl) (by gcs $hpc) (by gcs $hpc)
-      (by gcs $hpc) (by gcs $hpc))
+macro "trg_gpc" h:ident hpc:ident : tactic =>
+  `(tactic| exact invG_pc $h rfl rfl rfl rfl rfl (fun _ _ => rfl) rfl rfl (Or.inl rfl) (by trg_gcs $hpc) (by trg_gcs $hpc)
+      (by trg_gcs $hpc) (by trg_gcs $hpc))
 
 theorem invG_step (s : St) (t : Tid) (e : Ev) (s' : St) (hl : InvL s) (h : InvG s)
     (hs : step s t e = some s') : InvG s' := by
   unfold step at hs
   split at hs
   case h_1 | h_2 | h_7 | h_8 | h_9 | h_40 =>
-    rename_i hpc; injection hs with hs; subst hs; gpc h hpc
+    rename_i hpc; injection hs with hs; subst hs; trg_gpc h hpc
   case h_3 | h_4 | h_5 | h_6 =>
     rename_i hpc; injection hs with hs; subst hs
     exact invG_pc h rfl rfl rfl rfl rfl (fun u hu => by simp [hu]) (by simp) rfl (Or.inr (Or.inl rfl))
-      (by gcs hpc) (by gcs hpc)
-      (by intro k hx; first | (injection hx with hx; subst hx; rfl) | (injection hx)) (by gcs hpc)
+      (by trg_gcs hpc) (by trg_gcs hpc)
+      (by intro k hx; first | (injection hx with hx; subst hx; rfl) | (injection hx)) (by trg_gcs hpc)
   case h_10 | h_34 =>
     rename_i v hpc; split at hs
-    · injection hs with hs; subst hs; cases v <;> gpc h hpc
+    · injection hs with hs; subst hs; cases v <;> trg_gpc h hpc
     · contradiction
   case h_11 | h_14 | h_33 | h_37 =>
-    rename_i hpc; obtain ⟨hm, rfl⟩ := acquire_some hs; gpc h hpc
+    rename_i hpc; obtain ⟨hm, rfl⟩ := acquire_some hs; trg_gpc h hpc
   case h_12 =>
     rename_i hpc; injection hs with hs; subst hs
     exact invG_clear h hpc rfl rfl rfl rfl rfl rfl rfl
   case h_13 | h_17 | h_36 | h_39 =>
-    rename_i hpc; obtain ⟨hm, rfl⟩ := release_some hs; gpc h hpc
+    rename_i hpc; obtain ⟨hm, rfl⟩ := release_some hs; trg_gpc h hpc
   case h_15 =>
     rename_i nt hpc; injection hs with hs; subst hs
     exact invG_setActive hl h hpc rfl rfl rfl rfl rfl rfl rfl
   case h_16 =>
-    rename_i st hpc; injection hs with hs; subst hs; cases st <;> gpc h hpc
+    rename_i st hpc; injection hs with hs; subst hs; cases st <;> trg_gpc h hpc
   case h_18 | h_24 | h_32 | h_42 | h_41 =>
     rename_i hpc; split at hs
-    · injection hs with hs; subst hs; gpc h hpc
+    · injection hs with hs; subst hs; trg_gpc h hpc
     · contradiction
   case h_19 =>
     rename_i x v hpc; split at hs
-    · injection hs with hs; subst hs; cases v <;> cases x <;> gpc h hpc
+    · injection hs with hs; subst hs; cases v <;> cases x <;> trg_gpc h hpc
     · contradiction
   case h_20 =>
-    rename_i x hpc; obtain ⟨hm, rfl⟩ := acquire_some hs; gpc h hpc
+    rename_i x hpc; obtain ⟨hm, rfl⟩ := acquire_some hs; trg_gpc h hpc
   case h_21 =>
     rename_i x nt hpc; injection hs with hs; subst hs
     exact invG_setTrig h hpc rfl rfl rfl rfl rfl rfl rfl
   case h_22 =>
-    rename_i x st hpc; injection hs with hs; subst hs; gpc h hpc
+    rename_i x st hpc; injection hs with hs; subst hs; trg_gpc h hpc
   case h_23 =>
-    rename_i x hpc; obtain ⟨hm, rfl⟩ := release_some hs; cases x <;> gpc h hpc
+    rename_i x hpc; obtain ⟨hm, rfl⟩ := release_some hs; cases x <;> trg_gpc h hpc
   case h_25 =>
     rename_i k v hpc; split at hs
     · rename_i hv; injection hs with hs; subst hs
       have hk := h.calledTrig t k hpc
       cases v
       · refine invG_pc h rfl rfl rfl rfl rfl (fun u hu => by simp [hu]) (by simp) rfl (Or.inr (Or.inl rfl))
-          (by gcs hpc) ?_ (by gcs hpc) (by gcs hpc)
+          (by trg_gcs hpc) ?_ (by trg_gcs hpc) (by trg_gcs hpc)
         intro k' hx; simp at hx; subst hx
         exact ⟨by intro _ ci hc; contradiction, by intro hx; rw [hk] at hx; contradiction⟩
       · exact invG_pc h rfl rfl rfl rfl rfl (fun u hu => by simp [hu]) (by simp) rfl
-          (Or.inr (Or.inr ⟨rfl, hv.symm⟩)) (by gcs hpc) (by gcs hpc) (by gcs hpc) (by gcs hpc)
+          (Or.inr (Or.inr ⟨rfl, hv.symm⟩)) (by trg_gcs hpc) (by trg_gcs hpc) (by trg_gcs hpc) (by trg_gcs hpc)
     · contradiction
   case h_26 =>
     rename_i k m hpc; split at hs
-    · obtain ⟨hm, rfl⟩ := acquire_some hs; gpc h hpc
+    · obtain ⟨hm, rfl⟩ := acquire_some hs; trg_gpc h hpc
     · contradiction
   case h_27 =>
     rename_i k f a v hpc; split at hs
     · rename_i hg; obtain ⟨ha, hv⟩ := hg; subst ha; injection hs with hs; subst hs
       cases v
-      · gpc h hpc
-      · refine invG_pc h rfl rfl rfl rfl rfl (fun _ _ => rfl) rfl rfl (Or.inl rfl) (by gcs hpc) ?_
-          (by gcs hpc) (by gcs hpc)
+      · trg_gpc h hpc
+      · refine invG_pc h rfl rfl rfl rfl rfl (fun _ _ => rfl) rfl rfl (Or.inl rfl) (by trg_gcs hpc) ?_
+          (by trg_gcs hpc) (by trg_gcs hpc)
         intro k' hx; simp at hx; subst hx; exact resOk_of_flag h t k hv.symm
     · contradiction
   case h_28 =>
     rename_i k m hpc; split at hs
-    · injection hs with hs; subst hs; gpc h hpc
+    · injection hs with hs; subst hs; trg_gpc h hpc
     · contradiction
   case h_29 =>
     rename_i k m r hpc; split at hs
     · split at hs
       · split at hs
         · contradiction
-        · injection hs with hs; subst hs; gpc h hpc
+        · injection hs with hs; subst hs; trg_gpc h hpc
       · split at hs
-        · injection hs with hs; subst hs; gpc h hpc
+        · injection hs with hs; subst hs; trg_gpc h hpc
         · contradiction
       · split at hs
-        · injection hs with hs; subst hs; gpc h hpc
+        · injection hs with hs; subst hs; trg_gpc h hpc
         · contradiction
     · contradiction
   case h_30 =>
     rename_i k a v hpc; split at hs
     · rename_i hg; obtain ⟨ha, hv⟩ := hg; subst ha; injection hs with hs; subst hs
       cases v
-      · gpc h hpc
-      · refine invG_pc h rfl rfl rfl rfl rfl (fun _ _ => rfl) rfl rfl (Or.inl rfl) (by gcs hpc) ?_
-          (by gcs hpc) (by gcs hpc)
+      · trg_gpc h hpc
+      · refine invG_pc h rfl rfl rfl rfl rfl (fun _ _ => rfl) rfl rfl (Or.inl rfl) (by trg_gcs hpc) ?_
+          (by trg_gcs hpc) (by trg_gcs hpc)
         intro k' hx; simp at hx; subst hx; exact resOk_of_flag h t k hv.symm
     · contradiction
   case h_31 =>
     rename_i k r m hpc; split at hs
     · obtain ⟨hm, rfl⟩ := release_some hs
-      refine invG_pc h rfl rfl rfl rfl rfl (fun _ _ => rfl) rfl rfl (Or.inl rfl) (by gcs hpc) ?_
-        (by gcs hpc) (by gcs hpc)
+      refine invG_pc h rfl rfl rfl rfl rfl (fun _ _ => rfl) rfl rfl (Or.inl rfl) (by trg_gcs hpc) ?_
+        (by trg_gcs hpc) (by trg_gcs hpc)
       intro k' hx; simp at hx; obtain ⟨hx, hr⟩ := hx; subst hx; subst hr
       exact h.res t k (Or.inl hpc)
     · contradiction
@@ -1126,9 +1126,9 @@ theorem invG_step (s : St) (t : Tid) (e : Ev) (s' : St) (hl : InvL s) (h : InvG 
     rename_i o v hpc; split at hs
     · rename_i hv; injection hs with hs; subst hs
       cases v
-      · gpc h hpc
-      · exact invG_pc h rfl rfl rfl rfl rfl (fun _ _ => rfl) rfl rfl (Or.inl rfl) (by gcs hpc) (by gcs hpc)
-          (by gcs hpc) (fun _ => Or.inl hv.symm)
+      · trg_gpc h hpc
+      · exact invG_pc h rfl rfl rfl rfl rfl (fun _ _ => rfl) rfl rfl (Or.inl rfl) (by trg_gcs hpc) (by trg_gcs hpc)
+          (by trg_gcs hpc) (fun _ => Or.inl hv.symm)
     · contradiction
   case h_38 =>
     rename_i hpc; injection hs with hs; subst hs
@@ -1138,25 +1138,25 @@ theorem invG_step (s : St) (t : Tid) (e : Ev) (s' : St) (hl : InvL s) (h : InvG 
 /-! ## generic facts about one step, and `InvT` (a waiter that saw `true` under the mutex) -/
 
 /-- normal form of an accepted step: fully split, successor state explicit -/
-macro "stepcases" hs:ident : tactic =>
+macro "trg_stepcases" hs:ident : tactic =>
   `(tactic| (unfold step at $hs:ident; unfold St.acquire St.release at $hs:ident
              (repeat' split at $hs:ident)
              all_goals (first | contradiction | (injection $hs:ident with $hs:ident; subst $hs:ident))))
 
 /-- same, with the continuation of the nested `trigger()` call split as well -/
-macro "stepcasesx" hs:ident : tactic =>
+macro "trg_stepcasesx" hs:ident : tactic =>
   `(tactic| (unfold step at $hs:ident; unfold St.acquire St.release Ctx.after at $hs:ident
              (repeat' split at $hs:ident)
              all_goals (first | contradiction | (injection $hs:ident with $hs:ident; subst $hs:ident))))
 
 theorem step_pc_other {s s' : St} {t u : Tid} {e : Ev} (hs : step s t e = some s') (hu : u ≠ t) :
     s'.pc u = s.pc u := by
-  stepcases hs
+  trg_stepcases hs
   all_goals simp [St.setPc, hu]
 
 theorem step_flag {s s' : St} {t : Tid} {e : Ev} {m : Side} (hs : step s t e = some s')
     (hne : s'.flag m ≠ s.flag m) : (s.pc t).holds m = true := by
-  stepcases hs
+  trg_stepcases hs
   all_goals (first | (exact absurd rfl hne) | skip)
   all_goals (rename_i hpc; simp [hpc, Pc.holds]; simp [updS_apply] at hne; (try split at hne) <;> simp_all)
 
@@ -1179,7 +1179,7 @@ theorem sawTrue_holds {p : Pc} {m : Side} (h : p.sawTrue m = true) : p.holds m =
 
 theorem step_sawTrue {s s' : St} {t : Tid} {e : Ev} {m : Side} (hs : step s t e = some s')
     (hx : (s'.pc t).sawTrue m = true) : s'.flag m = true := by
-  stepcases hs
+  trg_stepcases hs
   all_goals (simp [St.setPc, Pc.sawTrue] at hx)
   all_goals (try (split at hx <;> simp [Pc.sawTrue] at hx))
   all_goals (try simp only [St.setPc])
